@@ -9,7 +9,7 @@ from fractions import Fraction
 from decimal import Decimal
 import common
 from common import sx, q, jq, cname, cnum, ok
-from units import U
+from units import U, BLOCK
 import evalreg
 import props.c01 as c01
 import props.c09 as c09
@@ -21,22 +21,33 @@ ZERO_LABELS = True      # a share of the cases is asked with candidates numbered
 LEVEL = 'proof'
 TIE = {'core.get_n_best, proportional.HighestAverages.evaluate': 'correspondence: implementation on k-fold votes vs the extracted model on the unscaled votes (k up to 10^25+7, 2^60+1)',
        'condorcet.pairwise_wins / CondorcetWinner / Copeland / SmithSet / SchwartzSet': 'models shared with C05/C06 (correspondence there); metamorphic relation on the implementation here',
-       'threshold.RelativeThreshold / AbsoluteThreshold / AlternativeThresholds, approval.QuotaSelector, core.Conditioned(threshold, HighestAverages)':
+       'threshold.RelativeThreshold / AbsoluteThreshold / AlternativeThresholds, approval.QuotaSelector':
            'correspondence: implementation on profiles with parties exactly on / one vote off the line (magnitudes up to 10^30 * total) vs the extracted models '
-           '(threshold and quota-selector models shared with C16 / C09; Conditioned = the highest-averages model on the parties passing the exact rule) '
-           'and vs the rule n*q > total*p evaluated in rationals in the harness',
+           '(threshold and quota-selector models shared with C16 / C09, where the translator ties them too) and vs the rule n*q > total*p evaluated in rationals in the harness',
+       'core.Conditioned(threshold, HighestAverages) = Model/Conditioned.v conditioned_ha':
+           'correspondence (stream threshold-conditioned): the composed model - selector model, the parties it returns kept in vote order, highest-averages model over them - '
+           'vs the implementation on the threshold-line profiles; and independently (threshold-conditioned-exact-rule) the highest-averages model on the parties passing the exact rule computed in the harness',
+       'openlist.ThresholdOpenList = Model/Threshold.v openlist_eval': 'correspondence (stream open-list-line; model shared with C16, translator tie there): a list candidate exactly on / one vote off the '
+           'jump line (fraction of the total as Fraction or Decimal, hare / Hagenbach-Bischoff / Imperiali quota times 1, 1/2, 3/2, higher or lower of the two) at magnitudes up to 3*10^40, vs the extracted model and vs an exact '
+           'Fraction reading of the rule in the harness',
+       'proportional.PureProportionality = Model/PureProp.v pp_evaluate': 'correspondence (stream pure-proportionality): implementation on k-fold votes (k up to 10^30, 7/3; previous gains, maxima, ZeroDivisionError) vs the '
+           'extracted model on the UNSCALED votes, and the exact shares v*n/total in the harness when there are no floors / ceilings',
        'approval.ProportionalApproval / SequentialProportionalApproval': 'correspondence: implementation vs the extracted PAV / SPAV models (shared with C12) and vs an exact '
            'Fraction PAV / SPAV in the harness on constructed exactly tied committees and one-vote leads (3-4 seats, magnitudes up to 10^30): refusal iff exact tie',
-       'all other scale-free evaluators (largest remainder, STV with hare / Hagenbach-Bischoff quota, positional, Bucklin, Schulze, minimax, ranked pairs, Kemeny, score family)': 'metamorphic relation on the implementation only'}
+       'cardinal.STAR, AllocatedScoreSelector (models shared with C12), Benham / TidemanAlternative (C05), Baldwin (C07 / C05), RankedToCondorcetVotes, largest remainder, STV with hare / Hagenbach-Bischoff quota, '
+       'positional, Bucklin, Schulze, minimax, ranked pairs, Kemeny, score family': 'models tied by the correspondence streams of their home properties; metamorphic relation f(k*p) = f(p) on the implementation here'}
 RULE = ('magnitude-differential: C01 generators (random, constructed quotient ties, zero votes / caps) and get_n_best mappings, implementation run on '
         'k*votes for k in {3, 2^60+1, 10^25+7, 7/3}, model run on votes. scale-metamorphic: every scale-free configuration of harness/evalreg.py '
-        '(47 evaluators over simple / approval / ranked / score / pairwise votes) plus 17 threshold-family configurations (RelativeThreshold 1/3, 1/4, 3/100, 1/20 with '
+        '(60 of the 63 evaluator configurations over simple / approval / ranked / score / pairwise votes; the 3 with the Droop quota are proved NOT scale-free) plus 17 threshold-family configurations (RelativeThreshold 1/3, 1/4, 3/100, 1/20 with '
         'accept_equal both ways, each also as Conditioned(threshold, D\'Hondt), AlternativeThresholds) on random profiles, outcome at k in {2, 3, 7, 10^6, 10^25+7} (score '
         'family k <= 1000: one list element per voter) equals the outcome at k = 1, refusals included. threshold-line: simple votes with one or two parties exactly on '
         'a share t of the total (t in 1/3, 3/100, 1/20, 7/100, 1/10, 3/200, 1/5, ... or random p/q, q <= 200), one vote above or one vote below, the offset applied before or '
         'after a k-fold scaling (k in {1, 2, 3, 7, 10^6, 2^53+1, 10^25+7, 10^30}), counts as int / Fraction / genuinely rational, accept_equal both ways: RelativeThreshold, '
         'AbsoluteThreshold (threshold = the line), AlternativeThresholds, Conditioned(threshold, highest averages with any of the five divisors, 1..40 seats), QuotaSelector '
-        '(hare / hagenbach_bischoff when t = 1/n) against the extracted models and against the exact rational rule computed in the harness. approval-exact-ties: PAV / SPAV '
+        '(hare / hagenbach_bischoff when t = 1/n) against the extracted models and against the exact rational rule computed in the harness. open-list-line: the same profiles read as '
+        'preferential votes of a list, jump_fraction = t (Fraction, or Decimal with int counts) and / or a homogeneous quota times 1, 1/2, 3/2, take_higher / accept_equal / list_precedence both ways, 1..m seats, '
+        'random list order, against the extracted model and the exact rule. pure-proportionality: 1-6 parties (zeros, fractions, equal votes), 0-20 seats, previous gains and maxima on random subsets, implementation on '
+        'k-fold votes against the model on the votes. approval-exact-ties: PAV / SPAV '
         'profiles (mostly 3-4 seats) with exactly tied optimal committees / round leaders (found among random small profiles, preferring ties between DIFFERENT sums such as '
         '11/6*2 + ... = 11/6*8 + ..., or constructed by one balancing ballot), the balancing ballot one vote heavier / lighter, each at k = 1 and two magnitudes up to 10^30, '
         'against the extracted PAV / SPAV models and an exact Fraction PAV / SPAV in the harness: tie refusal iff exact tie, committee and its order otherwise. near-tie: pairs (v, v+1) at v in '
@@ -44,10 +55,11 @@ RULE = ('magnitude-differential: C01 generators (random, constructed quotient ti
         'and largest remainder. int-vs-fraction: weights K*w+e (K in {2^52+1, 2^52+2, 2^53, 2^53+1, 10^16+1, 10^30+1}, e in -1..2; a third of the cases '
         'with two or three equally weighted ballot types so that majorities hinge on single votes) given once as int and once as Fraction to every '
         'non-score evaluator: identical outcomes. exact-types: no float in PureProportionality seats, split approvals, exact means, Gregory transfer tallies. '
-        'non-trivial = result contains a tie, or k > 2^53; distinct by case hash')
-PARTIAL = ['scale invariance of ranked pairs / Kemeny / PAV / SPAV / positional / Bucklin / score rules: '
-           'metamorphic relation evaluated on the implementation per explored case, not proved (proved: Schulze C11_scale_schulze, largest remainder C11_scale_largest_remainder, STV C11_scale_stv)',
-           'thresholds, quota selector, PAV, SPAV: exactness is decided per explored case against the extracted models and exact harness oracles (no scale theorem for them)',
+        'non-trivial = result contains a tie, or k > 2^53, or a party / candidate exactly on a line; distinct by case hash')
+PARTIAL = ['every configuration of the registry now has a scale theorem or a proved refutation (docs/C11.md lists them); what stays partial: majority judgment with the DEFAULT tie-break is proved scale-free '
+           'on balanced score dictionaries (complete ballots) only - on partial ballots it is proved NOT scale-free (known finding C11-mj-default-scale)',
+           'the ORDER of the list AlternativeThresholds returns (mean rank, then set iteration order) is not modelled: the selector theorems are about the set of passing parties',
+           'score-family evaluators materialise one list element per voter (known finding C11-score-materialises): their scale factors stay <= 1000 in the metamorphic stream; the theorems hold for every factor',
            'float-freeness of the implementation is by construction a per-case observation (the models compute in Q)']
 TRUSTED = []
 KS = [2, 3, 7, 10 ** 6, 10 ** 25 + 7]
@@ -376,7 +388,14 @@ def cond_passing(c):
 
 
 def cond_model_line(c):
-    """Conditioned(threshold, highest averages) = the highest-averages MODEL on the parties that pass the exact threshold rule"""
+    """Conditioned(threshold, highest averages) = the composed MODEL Model/Conditioned.v conditioned_ha (threshold selector model, the
+    parties it returns kept in the order of the votes, highest-averages model over them) - the function the theorems
+    C11_scale_conditioned_highest_averages / _relative are about"""
+    return '%d (%s %s %s %d () ())' % (BLOCK['C11'] + 0, c16.sel_sx(c['sel']), c01.dsx(c['div']), sx([[p, q(v)] for p, v in c['votes']]), c['n'])
+
+
+def cond_exact_model_line(c):
+    """... and, independently, the highest-averages MODEL on the parties that pass the exact threshold rule computed in the harness"""
     return c01.model_line(dict(c, votes=cond_passing(c), prev=[], caps=[]))
 
 
@@ -485,7 +504,146 @@ def threshold_line(ctx, count, rng):
             ctx.dist['line:rep=' + c['rep']] += 1
     ctx.differential('threshold-line', thr_cases, c16.thr_model_line, thr_impl, canon=c16.thr_canon, nontrivial=big_or_on_line, spec=thr_spec)
     ctx.differential('threshold-conditioned', cond_cases, cond_model_line, cond_impl, canon=c01.canon, nontrivial=big_or_on_line, spec=cond_spec)
+    ctx.differential('threshold-conditioned-exact-rule', cond_cases, cond_exact_model_line, cond_impl, canon=c01.canon, nontrivial=big_or_on_line, spec=cond_spec)
     ctx.differential('threshold-quota-selector', qs_cases, c09.qs_model_line, qsel_impl, canon=c09.canon, nontrivial=big_or_on_line, spec=qsel_spec)
+
+
+# ------------------------------------------------------------------ open lists: a candidate on the jump line, one vote above, one vote below
+def ol_line_impl(c):
+    import votelib.evaluate.openlist as ol
+    kw = {}
+    if c['jump'] is not None:
+        kw['jump_fraction'] = c16.pynum(c['jump'])
+    if c['quota'] is not None:
+        kw['quota_function'] = c16.QN[c['quota']]
+        if c['qfrac'] != 'i:1':
+            kw['quota_fraction'] = c16.pynum(c['qfrac'])
+    ev = ol.ThresholdOpenList(take_higher=bool(c['th']), accept_equal=bool(c['ae']), list_precedence=bool(c['lp']), **kw)
+    return ok([cnum(x) for x in ev.evaluate(line_votes(c), c['n'], [cname(p) for p in c['list']])])
+
+
+def ol_exact(c):
+    """ThresholdOpenList read declaratively on exact rationals: who is over the jump line (the lower / higher of fraction * total and
+    quota_fraction * quota(total, n)), cut to n by votes or by list order, filled up from the list"""
+    exact = {p: q(v) for p, v in c['votes']}
+    total = sum(exact.values())
+    lines = []
+    if c['jump'] is not None:
+        lines.append(total * c16.qn(c['jump']))
+    if c['quota'] is not None:
+        lines.append(total / (c['n'] + {1: 0, 4: 1, 7: 2}[c['quota']]) * c16.qn(c['qfrac']))
+    if not lines:
+        return c['list'][:c['n']]
+    line = max(lines) if c['th'] else min(lines)
+    order = sorted(exact, key=lambda p: -exact[p])           # stable: equal votes keep the order of the votes
+    jumping = [p for p in order if passes(exact[p], line, c['ae'])]
+    if len(jumping) > c['n']:
+        if c['lp']:
+            kept = sorted(jumping, key=c['list'].index)[:c['n']]
+            return sorted(kept, key=lambda p: -exact[p])
+        return jumping[:c['n']]
+    out = list(jumping)
+    for p in c['list']:
+        if len(out) == c['n']:
+            break
+        if p not in out:
+            out.append(p)
+    return out
+
+
+def ol_line_spec(c, io, mo):
+    v = common.parse_sx(io)
+    if v[0] != 0:
+        return 'open list refused exact rational votes: %s' % c.get('_exc')
+    want = ol_exact(c)
+    if v[1] != want:
+        return ('open list (jump %s, quota %s x %s, %s of the two lines) returns %s; in exact arithmetic the result is %s'
+                % (c['jump'], c16.QN.get(c['quota']), c['qfrac'], 'higher' if c['th'] else 'lower', v[1], want))
+    return None
+
+
+def open_list_line(ctx, count, rng):
+    cases = []
+    for g in gen_line_profiles(rng, count):
+        t = g.pop('t')
+        g.pop('thr_rep')
+        ids = [p for p, _ in g['votes']]
+        lst = ids[:]
+        rng.shuffle(lst)
+        jump = 'f:%s' % t
+        d = _as_decimal(t)
+        if d is not None and g['rep'] == 'int' and rng.random() < 0.5:      # a Decimal fraction only with int counts (Fraction x Decimal is a TypeError: outside the quantifier)
+            jump = 'd:%s' % d
+        r = rng.random()
+        quota = rng.choice([1, 4, 7]) if r < 0.4 else None
+        if r > 0.85:
+            jump, quota = None, rng.choice([1, 4, 7])
+        cases.append(dict(g, unit='openlist', jump=jump, quota=quota, qname=True, qfrac=rng.choice(['i:1', 'f:1/2', 'f:3/2']) if quota else 'i:1',
+                          th=rng.randint(0, 1), ae=1 if g.pop('ae') else 0, lp=rng.randint(0, 1), n=rng.randint(1, len(ids)), list=lst))
+    for c in cases:
+        ctx.dist['open-list:k>2^53' if int(c['k']) > 2 ** 53 else 'open-list:k<=2^53'] += 1
+        ctx.dist['open-list:jump=%s' % (c['jump'] or 'none')[:1]] += 1
+    ctx.differential('open-list-line', cases, c16.ol_model_line, ol_line_impl, canon=c16.ol_canon, nontrivial=big_or_on_line, spec=ol_line_spec)
+
+
+# ------------------------------------------------------------------ PureProportionality: implementation on k-fold votes vs the model on the votes
+def pp_model_line(c):
+    return '%d (%s %d %s %s)' % (BLOCK['C11'] + 1, sx([[p, q(v)] for p, v in c['votes']]), c['n'],
+                                 sx([[p, v] for p, v in c['prev']]), sx([[p, v] for p, v in c['caps']]))
+
+
+def pp_impl(c):
+    import votelib.evaluate.proportional as prop
+    k = q(c['k'])
+    votes = {cname(p): rep_num(q(v) * k, c['rep']) for p, v in c['votes']}
+    res = prop.PureProportionality().evaluate(votes, c['n'], prev_gains={cname(p): v for p, v in c['prev']},
+                                              max_seats={cname(p): v for p, v in c['caps']})
+    out = []
+    for cand, seats in res.items():
+        if isinstance(seats, float):
+            raise common.FloatLeak('float seats %r for %s' % (seats, cand))
+        out.append([cnum(cand), q(seats)])
+    return ok(out)
+
+
+def pp_canon(c, wire):
+    v = common.parse_sx(wire)
+    if v[0] != 0:
+        return ('err', v[1])
+    return ('ok', tuple(sorted((p, Fraction(*s) if isinstance(s, list) else Fraction(s)) for p, s in v[1])))
+
+
+def pp_spec(c, io, mo):
+    """declarative reading without floors / ceilings: every party gets exactly v * n / total seats (a share of the house: the factor k cancels)"""
+    v = pp_canon(c, io)
+    if v[0] != 'ok':
+        return None if v[1] == common.E['ZERODIV'] else 'pure proportionality refused exact rational votes: %s' % c.get('_exc')
+    if c['prev'] or c['caps']:
+        return None
+    exact = {p: q(x) for p, x in c['votes']}
+    total = sum(exact.values())
+    want = tuple(sorted((p, x * c['n'] / total) for p, x in exact.items()))       # a party without votes (or a house without seats) is listed with 0 seats
+    if v[1] != want:
+        return 'pure proportionality on %s-fold votes gives %s; the exact shares v * n / total are %s' % (c['k'], v[1], want)
+    return None
+
+
+def gen_pure(rng, count):
+    for _ in range(count):
+        m = rng.randint(1, 6)
+        style = rng.choice(['small', 'mid', 'zeros', 'frac', 'equal'])
+        ids = list(range(1, m + 1))
+        rng.shuffle(ids)
+        votes = []
+        for p in ids:
+            x = {'small': lambda: rng.randint(0, 9), 'mid': lambda: rng.randint(1, 1000), 'zeros': lambda: rng.choice([0, 0, rng.randint(1, 20)]),
+                 'frac': lambda: Fraction(rng.randint(0, 40), rng.randint(1, 6)), 'equal': lambda: rng.choice([12, 24])}[style]()
+            votes.append([p, jq(x)])
+        r = rng.random()
+        prev = [[p, rng.randint(0, 3)] for p in ids if rng.random() < 0.4] if r < 0.5 else []
+        caps = [[p, rng.randint(0, 5)] for p in ids if rng.random() < 0.4] if 0.3 < r < 0.8 else []
+        yield dict(unit='pure_proportionality', votes=votes, n=rng.randint(0, 20), prev=prev, caps=caps,
+                   k=jq(rng.choice(BIGK + [1, 1, 10 ** 30])), rep=rng.choice(['int', 'int', 'frac']))
 
 
 # ------------------------------------------------------------------ PAV / SPAV: exactly tied committees and one-vote leads
@@ -802,10 +960,15 @@ def replay_case(ctx, c, stream):
         ctx.differential(stream, [c], c16.thr_model_line, thr_impl, canon=c16.thr_canon, nontrivial=lambda cc: True, spec=thr_spec)
     elif c.get('unit') == 'conditioned_ha':
         ctx.differential(stream, [c], cond_model_line, cond_impl, canon=c01.canon, nontrivial=lambda cc: True, spec=cond_spec)
+        ctx.differential(stream, [c], cond_exact_model_line, cond_impl, canon=c01.canon, nontrivial=lambda cc: True, spec=cond_spec)
     elif c.get('unit') == 'quota_selector':
         ctx.differential(stream, [c], c09.qs_model_line, qsel_impl, canon=c09.canon, nontrivial=lambda cc: True, spec=qsel_spec)
     elif c.get('unit') in ('pav', 'spav'):
         ctx.differential(stream, [c], c12.model_line, ap_impl, canon=c12.canon, nontrivial=lambda cc: True, spec=ap_spec, limit=10)
+    elif c.get('unit') == 'openlist':
+        ctx.differential(stream, [c], c16.ol_model_line, ol_line_impl, canon=c16.ol_canon, nontrivial=lambda cc: True, spec=ol_line_spec)
+    elif c.get('unit') == 'pure_proportionality':
+        ctx.differential(stream, [c], pp_model_line, pp_impl, canon=pp_canon, nontrivial=lambda cc: True, spec=pp_spec)
     elif c.get('unit') == 'highest_averages':
         ctx.differential(stream, [c], c01.model_line, lambda cc: c01.impl(scaled_ha(cc)), canon=c01.canon, nontrivial=lambda cc: True)
     elif c.get('unit') == 'get_n_best':
@@ -833,7 +996,10 @@ def explore(ctx, widen=1):
     type_metamorphic(ctx, 'int-vs-fraction', ctx.n(2500, 40000) * widen, rng)
     near_tie_checks(ctx, 'near-tie', ctx.n(150, 2000), rng)
     threshold_line(ctx, ctx.n(900, 12000) * widen, rng)
+    open_list_line(ctx, ctx.n(700, 9000) * widen, rng)
     approval_ties(ctx, ctx.n(500, 6000) * widen, rng)
+    ctx.differential('pure-proportionality', gen_pure(rng, ctx.n(1200, 15000) * widen), pp_model_line, pp_impl, canon=pp_canon,
+                     nontrivial=lambda c: q(c['k']) > 2 ** 53 or bool(c['prev'] or c['caps']), spec=pp_spec)
     exact_type_checks(ctx, 'exact-types', ctx.n(300, 4000), rng)
     score_magnitude_check(ctx, 'score-magnitude')
     if ctx.tier == 'thorough':
